@@ -45,13 +45,13 @@ fn main() {
     ctx.assume("targets never fail or refuse a channel (a failed target legitimately loses commands); no store; the agent is not stopped during a case");
 
     let max_ops = ctx.pick(70, 160);
-    let n = ctx.pick(5_000, 400_000);
+    let n = ctx.pick(6_500, 150_000);
     ctx.prop("supply-lane", n, move || sup::arb_case(max_ops), sup::check);
-    let n = ctx.pick(3_000, 300_000);
+    let n = ctx.pick(4_000, 80_000);
     ctx.prop("command-lane", n, move || cmdlane::arb_case(max_ops), cmdlane::check);
-    let n = ctx.pick(5_000, 400_000);
+    let n = ctx.pick(6_500, 150_000);
     ctx.prop("agent-commands", n, move || sent::arb_case(max_ops, false), sent::check);
-    let n = ctx.pick(5_000, 400_000);
+    let n = ctx.pick(6_500, 150_000);
     ctx.prop("agent-commands-commander", n, move || sent::arb_case(max_ops, true), sent::check);
     ctx.finish();
 }
